@@ -60,6 +60,7 @@ Clauses16(t, R) ==
         <<"C16_NoRedZoneWriteIfLeaf", done /\ c.leaf /\ RedZone(c.abi) > 0,
                                       All(R, NoRedZoneWriteIfLeaf)>>,
         <<"C16_ReadsOnlyOwnSlots", done, All(R, ReadsOnlyOwnSlots)>>,
+        <<"C16_SpAlignedOnAccess", done /\ c.abi = "arm64", All(R, SpAlignedOnAccess)>>,
         <<"C16_RestoredDeclared", done, All(R, RestoredDeclared)>>,
         <<"C16_NoCollateral", done, All(R, NoCollateral)>>,
         <<"C16_FlagsRestoredIfDeclared", done /\ c.flags /\ c.abi # "mips32",
@@ -87,6 +88,7 @@ Clauses17(t, R) ==
         <<"C17_NoRedZoneWriteIfLeaf", done /\ c.leaf /\ RedZone(c.abi) > 0,
                                       All(R, NoRedZoneWriteIfLeaf)>>,
         <<"C17_ReadsOnlyOwnSlots", done, All(R, ReadsOnlyOwnSlots)>>,
+        <<"C17_SpAlignedOnAccess", done /\ c.abi = "arm64", All(R, SpAlignedOnAccess)>>,
         <<"C17_NoCollateral", done, All(R, NoCollateral)>>,
         <<"C17_FlagsRestoredIfDeclared", done /\ c.flags, All(R, FlagsRestoredIfDeclared)>>,
         <<"C17_ReportedAdjustment", done /\ t.adjknown, All(R, ReportedAdjustment)>>,
@@ -130,7 +132,7 @@ DiffState(t, R, a) ==
   IN  [a |-> a, sp0 |-> P.sp0, sp |-> S.sp, spBody |-> S.spBody, spExit |-> S.spExit,
        phase |-> S.phase, adjknown |-> t.adjknown, adj |-> t.adj,
        highest_write_end |-> SetMax({x + P.w : x \in S.written}),
-       badreads |-> S.badreads, flags |-> S.flags.k,
+       badreads |-> S.badreads, misaligned_sp_at_steps |-> S.misal, flags |-> S.flags.k,
        changed |-> {r \in DOMAIN S.regs : S.regs[r] # InitTok(r)},
        scratch |-> t.scratch,
        calls |-> [k \in DOMAIN S.calls |->
